@@ -182,6 +182,9 @@ def run_part_a(run, e1, cell, rng, tier):
             p = s.index(b"\r\n\r\n")
             segs.append([p + 4])                    # head alone, then body
             segs.append([max(1, p - 1), min(nn - 1, p + 5)])
+            for d in (1, 2, 3):
+                segs.append([p + d])                # a read boundary inside the empty line that ends the head
+            segs.append([max(1, p - 3), p + 2])
             for cuts in segs:
                 obs = e1.observe(cfg, gen.cut(stream, cuts), **({"peer": ("127.0.0.1", 5000)} if proxy_line else {}))
                 run.case(("A", json.dumps(cs, sort_keys=True), el, d, body is not None, str(under), len(cuts)))
